@@ -68,6 +68,28 @@ func c16(p *an.Prog, r *an.R, tier string) {
 				}
 			}
 		}
+		if !storesDoc {
+			// the result may go through a local first: `x, _, err := read(..); doc.F = x`
+			for _, lh := range as.Lhs {
+				id, ok := lh.(*ast.Ident)
+				if !ok || id.Name == "_" {
+					continue
+				}
+				obj := info.ObjectOf(id)
+				ast.Inspect(dd.Decl.Body, func(m ast.Node) bool {
+					a2, ok := m.(*ast.AssignStmt)
+					if !ok || len(a2.Lhs) != len(a2.Rhs) {
+						return true
+					}
+					for i, l2 := range a2.Lhs {
+						if se, ok := ast.Unparen(l2).(*ast.SelectorExpr); ok && info.Selections[se] != nil && an.NamedOf(info.TypeOf(se.X)) == docT && isIdentOf(info, a2.Rhs[i], obj) {
+							storesDoc = true
+						}
+					}
+					return true
+				})
+			}
+		}
 		if !storesDoc || an.Callee(info, call) == nil || !an.InModule(an.Callee(info, call).Pkg()) {
 			return true // builtins (make, append) build fresh values of their own
 		}
@@ -113,7 +135,11 @@ func c16(p *an.Prog, r *an.R, tier string) {
 			var lastObj types.Object
 			for _, sl := range g.Locs(func(nd ast.Node) bool { return len(an.CallsTo(inf, nd, false, setRepo)) > 0 }) {
 				sc := an.CallsTo(inf, g.Node(sl), false, setRepo)[0]
-				u, ok := ast.Unparen(sc.Args[0]).(*ast.UnaryExpr)
+				arg0 := sc.Args[0]
+				if dd := defOf(inf, d.Decl.Body, arg0); dd != nil {
+					arg0 = dd // the pointer was taken into a single-definition local first
+				}
+				u, ok := ast.Unparen(arg0).(*ast.UnaryExpr)
 				if !ok || u.Op != token.AND {
 					continue
 				}
